@@ -4174,7 +4174,9 @@ pub fn is_arg_by_pointer(resolve: &Resolve, ty: &Type) -> bool {
 }
 
 pub fn to_c_ident(name: &str) -> String {
-    match name {
+    // Keywords are looked up on the snake-cased name: WIT allows upper-case
+    // words (`INT`) which would otherwise only become a keyword afterwards.
+    match name.to_snake_case().as_str() {
         // Escape C and C++ keywords.
         // Source: https://en.cppreference.com/w/cpp/keyword
         "alignas" => "alignas_".into(),
@@ -4245,6 +4247,7 @@ pub fn to_c_ident(name: &str) -> String {
         "register" => "register_".into(),
         "reinterpret_cast" => "reinterpret_cast_".into(),
         "requires" => "requires_".into(),
+        "restrict" => "restrict_".into(),
         "return" => "return_".into(),
         "short" => "short_".into(),
         "signed" => "signed_".into(),
@@ -4264,6 +4267,7 @@ pub fn to_c_ident(name: &str) -> String {
         "typedef" => "typedef_".into(),
         "typeid" => "typeid_".into(),
         "typename" => "typename_".into(),
+        "typeof" => "typeof_".into(),
         "union" => "union_".into(),
         "unsigned" => "unsigned_".into(),
         "using" => "using_".into(),
@@ -4283,7 +4287,7 @@ pub fn to_c_ident(name: &str) -> String {
         "stdin" => "stdin_".into(),
         "stdout" => "stdout_".into(),
         "stderr" => "stderr_".into(),
-        s => s.to_snake_case(),
+        s => s.into(),
     }
 }
 
